@@ -51,11 +51,21 @@ def kexForge (spec : Bool) (pre : List String) (which val : String) : String :=
     | _ => "BADOP"
   else r
 
+/-- `sm2_kdf_block z blk` / `s9_kdf_block z blk`: block number blk (1-based) of the KDF key stream. Model and standard define
+    block i as SM3(z ‖ ct) with the 32-bit big-endian counter ct = i (`Spec.SM2.kdf`, `Impl.SM2.kdf`, `kdf_refines`), so one block is
+    computed directly; the real code derives the whole prefix. Defined for 1 ≤ blk < 2^32. -/
+def kdfBlock (z blk : String) : String :=
+  match bytesOfHex z, blk.toNat? with
+  | some z, some b => if 1 ≤ b ∧ b < 2 ^ 32 then "OK " ++ hexOfBytes (Spec.SM3.hash (z ++ natBE 4 b)) else "ANY"
+  | _, _ => "BADOP"
+
 def step (spec : Bool) (line : String) : String :=
   let toks := (line.trimAscii.toString.splitOn " ").filter (· ≠ "")
   match toks with
   | ["sm2_kexseq", dA, dB, idA, idB, klen, rAs, rBs] => kexSeq spec [dA, dB, idA, idB, klen] rAs rBs
   | ["sm2_kexforge", dA, dB, idA, idB, klen, rA, rB, which, val] => kexForge spec [dA, dB, idA, idB, klen, rA, rB] which val
+  | ["sm2_kdf_block", z, blk] => kdfBlock z blk
+  | ["s9_kdf_block", z, blk] => kdfBlock z blk
   | "seq" :: op :: rest => seqOp spec op rest
   | _ => step1 spec toks
 
